@@ -8,7 +8,7 @@ from typing import Any
 from jinja2 import nodes
 
 from .. import tplq
-from ..astutil import call_name, norm, short, where
+from ..astutil import Locals, call_name, norm, short, where
 from ..core import PKG, Report
 from ..jinja_interp import expr_text
 from .c06 import caught, handlers_around
@@ -92,9 +92,20 @@ def run(rep: Report, ctx: Any) -> str:
     er = ix.func("responses.empty_response")
     rep.check("source=NONE_SOURCE" in norm(er.node), "R04.2", "empty_response::none-source", "an empty response is not decoded to None", where(er, er.node))
     rfd = ix.func("responses.response_from_data")
-    t = norm(rfd.node)
-    rep.check(t.count("empty_response(") >= 2 and "if not content" in t and "if schema_data is None" in t, "R04.2", "response_from_data::no-content-and-no-schema",
-              "no content / no schema are not both mapped to the empty response", where(rfd, rfd.node))
+    rl = Locals(rfd.node)
+    content_l = set(rl.bound_from(lambda v: v == "data.content", "assign")) | {"data.content"}
+    schema_l = set(rl.bound_from(lambda v: v.endswith(".media_type_schema"), "assign"))
+
+    def _returns_empty(i: ast.If) -> bool:
+        return any(isinstance(r, ast.Return) and any(isinstance(c, ast.Call) and call_name(c) == "empty_response" for c in ast.walk(r)) for r in i.body)
+
+    ifs = [n for n in ast.walk(rfd.node) if isinstance(n, ast.If) and _returns_empty(n)]
+    no_content = [i for i in ifs if isinstance(i.test, ast.UnaryOp) and isinstance(i.test.op, ast.Not) and norm(i.test.operand) in content_l]
+    no_schema = [i for i in ifs if isinstance(i.test, ast.Compare) and isinstance(i.test.ops[0], ast.Is) and norm(i.test.comparators[0]) == "None"
+                 and norm(i.test.left) in schema_l]
+    rep.check(bool(no_content) and bool(no_schema), "R04.2", "response_from_data::no-content-and-no-schema",
+              "no content / no schema are not both mapped to the empty response", where(rfd, rfd.node),
+              lhs=[norm(i.test) for i in ifs], rhs="`not <data.content>` and `<media_type_schema> is None` both return empty_response(...)")
 
     # ---- R04.3 ----------------------------------------------------------------------------------------------------------
     cons = [f for f in top if f.kind == "expr" and f.text.startswith("prop_template.construct(response.prop, response.source.attribute)")]
